@@ -404,6 +404,8 @@ RULES = {
     "R44": [(".read()", ".vread_held()"), (".write()", ".vwrite_free()")],
     # R45: `log_files.sort_unstable()` / `log_files.reverse()` on the Vec<PathBuf> of read_dir_related_files -> shims (`Ord for PathBuf` is an oracle order)
     "R45": [("log_files.sort_unstable()", "vsort_unstable(&mut log_files)"), ("log_files.reverse()", "vreverse(&mut log_files)")],
+    # R48: `Duplicate::from(x)` (`impl From<u8> for Duplicate`, emitted as the inherent method `duplicate_from_u8` by R9) at its two call sites
+    "R48": [("Duplicate::from(", "Duplicate::vfrom_u8(")],
     # R47: timestamp_from_ts_infix: chrono operations around the two parsers -> shims with oracles
     "R47": [("e.kind()==ParseErrorKind::NotEnough", "vnot_enough(&e)"), ("Local.from_local_datetime(&dt1).earliest()", "vlocal_earliest(&dt1)"),
             ("Local.from_local_datetime(&d1.and_hms_opt(10,0,0).unwrap()).earliest()", "vlocal_earliest(&vat_ten(&d1))")],
